@@ -63,8 +63,12 @@ RLe(a, b) == a[1] * b[2] <= b[1] * a[2]
 (*         rounding each, margin 2:  |err| <= 8 * 2^-52 * |x| + 1e-13.     *)
 (*         Also for the whole-number Unix times unixtime_s/_ms/_us: being   *)
 (*         off by one whole unit is far outside it while |x| < 5.6e14.     *)
-(* unit_list: see Split below; whole parts exactly, the last part and the  *)
-(*         sum within 1e-9 relative (1e-12 of the total as absolute part). *)
+(* unit_list: see Split below.  VIOLATION iff the literal law is broken: the *)
+(*         parts do not add up to the original within 1e-12 of it, a part  *)
+(*         other than the last is not whole, or a part has the wrong sign. *)
+(*         The exact Split (whole parts exactly, last part within 1e-9     *)
+(*         relative + 1e-12 of the total) is the spec's representation; a  *)
+(*         lawful result that differs from it is MODEL-DRIFT only.         *)
 (***************************************************************************)
 TolClasses == <<
   [name |-> "cond", rel |-> "1e-12", formula |-> "|err| <= rel * (A(x) + |x|), A = |F(x)/F'(x)| for the inner function F"],
@@ -459,18 +463,19 @@ Expected(c, m, sign, n) ==
       k == Len(c.units) IN
   [i \in 1..k |-> sign * (IF i < k THEN d[i] ELSE IF m = 0 THEN d[k] ELSE d[k] * Pow2(m) + d[k + 1])]
 
-\* judgement of an observed exact split (trace validation): Strict - it IS the expected one;
-\* otherwise only the law itself
+\* judgement of an observed exact split (trace validation).  Strict: it IS the expected one (the spec's mixed-unit
+\* representation).  Otherwise only the literal law of the property on integer-scaled data: the parts add up to the
+\* original, all of them are whole (they are integers here) and none has the wrong sign.  A result that passes the
+\* law but not Strict (a part equal to one whole next-larger unit, ...) is a representation difference (MODEL-DRIFT),
+\* not a violation of C23.
 Judge(c, m, sign, n, parts, strict) ==
   LET k == Len(c.units) IN
   /\ Len(parts) = k
   /\ IF strict THEN parts = Expected(c, m, sign, n)
      ELSE LET abs == [i \in 1..k |-> sign * parts[i]]
               sc == Pow2(m)
-              \* over the chain scaled to the unit 2^-m of the smallest unit
               rs == c.ratios IN
           /\ \A i \in 1..k : abs[i] >= 0
-          /\ \A i \in 2..(k - 1) : abs[i] < rs[i - 1]
-          /\ abs[k] < rs[k - 1] * sc
+          \* over the chain scaled to the unit 2^-m of the smallest unit
           /\ (WSum([i \in 1..k |-> IF i < k THEN abs[i] * sc ELSE abs[k]], rs, 1) = n)
 =============================================================================
